@@ -322,6 +322,7 @@ MANIFEST = {
             "distributions and the round trip is the identity. Interpolation: for every tensor and "
             "every ordered pair the new block equals the old block evaluated at the new nodes "
             "(independent Lagrange evaluation) with Chebyshev indices truncated, for 1-3 particles."
-            " Interpolation is also decided for stored sizes 15, 21, 25 (multiples and non-multiples of the target size) with the tensor symbolic on chosen polynomial-index pairs.",
+            " Interpolation is also decided for stored sizes 15, 21, 25 (multiples and non-multiples of the target size) with the tensor symbolic on chosen polynomial-index pairs."
+            " Pair files exist on disk in a scratch directory, so existence checks and the stubbed h5py see the same directory; a failed load keeps the previous array.",
     "note": "h5py replaced by an in-memory fake; tolerance 1e-8; sizes as enumerated.",
 }
